@@ -667,12 +667,12 @@ class Monitor:
             if result[0] == "deadlock" and self.cfg.get("lazy", True) and T.group_reentry():
                 cls = "lazy-wait-across-group-reentry"
             self.add("C05", _outcome_kind(result), f"run() ended with {result}", cls=cls)
-            if exp_loop and result[0] in ("deadlock", "livelock") and cls is None:
+            if exp_loop and cls is None and not (result[0] == "exc" and result[1] == "ScenarioError"):
                 # a loop that exceeds the bound must be STOPPED WITH THE ERROR, not hang
                 self.add("C09", "loop-not-stopped-with-error",
                          f"sub-step(s) beyond max_loop_iterations={T.max_loop} are demanded "
                          f"({ {s: b[:1] for s, b in exp_loop.items()} }) but run() ended with "
-                         f"{result[0]} instead of the SimulationError naming the simulator")
+                         f"{result[:2]} instead of the SimulationError naming the simulator")
             refused = result[0] == "exc" and result[1] == "ScenarioError" and any(
                 not w[1] for w in getattr(self, "last_async", {}).values())
             # (a request without an async_requests connection is refused with a ScenarioError,
@@ -686,6 +686,16 @@ class Monitor:
                 self.add("C09", "settling-loop-did-not-complete",
                          f"the same-time loop settles within the bound but run() ended with "
                          f"{result[0]}: time does not advance", cls=cls)
+            if not exp_loop and result[0] == "exc" and not refused:
+                members = {c["src"] for c in T.conns if c.get("weak")} | \
+                          {c["dst"] for c in T.conns if c.get("weak")}
+                owed = {s: [x for x in self.pending(s) if x[0] < self.until][:2] for s in sorted(members)}
+                owed = {s: v for s, v in owed.items() if v}
+                if owed:
+                    self.add("C09", "settling-loop-interrupted",
+                             f"every same-time loop settles within the bound, but run() ended with "
+                             f"{result[:2]} while loop members still had demanded steps {owed}",
+                             cls=cls)
             # an unexpected abort also means that the steps still demanded are never executed
             for sid in T.sims:
                 lost = [x for x in self.pending(sid) if x[0] < self.until
